@@ -5,6 +5,7 @@
    points; entries, which reads the rows back out of the parsed document. *)
 From Coq Require Import String.
 From Erbium Require Import Lib.Base Model.Json Model.Http Model.EntryC20 Proofs.Http Proofs.Listing.
+From Erbium Require Import Model.DhcpPool Proofs.DhcpPool Proofs.DhcpPoolHistory Proofs.ListingHistory.
 Open Scope N_scope.
 
 (* "whatever bytes clients put in their host name": every string of Unicode
@@ -98,3 +99,60 @@ Example ex_parser_rejects :
   json_parse (str "{""a"":01}"%string) = None /\ json_parse (str "[1,]"%string) = None /\ json_parse (str "{""a"":""\x""}"%string) = None
   /\ json_parse (str "[1] 2"%string) = None /\ json_parse [34; 1; 34] = None /\ json_parse (str "{'a':1}"%string) = None.
 Proof. vm_compute. repeat split; reflexivity. Qed.
+
+(* "for all lease stores reachable by any history": over the store left by ANY
+   well-formed history of allocations (Model/DhcpPool.v, the histories of C01), the
+   gauges are the numbers of unexpired and expired rows, add up to the number of rows,
+   count DISTINCT addresses, and the active gauge covers every lease a client was told
+   (reply log, [holds]) that it holds *)
+Theorem C20_gauges_reachable :
+  forall h d log now,
+  wf_history h = true -> run h = Some (d, log) ->
+  metrics (map r_expiry d) now = Ok (lenN (active_rows d now), lenN (expired_rows d now))
+  /\ lenN (active_rows d now) + lenN (expired_rows d now) = lenN d
+  /\ NoDup (map r_addr (active_rows d now))
+  /\ NoDup (map r_addr (expired_rows d now))
+  /\ (clock h <= now -> forall c x, holds log c x now ->
+        exists r, In r (active_rows d now) /\ r_addr r = x /\ r_client r = c).
+Proof. exact gauges_reachable. Qed.
+Check C20_gauges_reachable :
+  forall h d log now,
+  wf_history h = true -> run h = Some (d, log) ->
+  metrics (map r_expiry d) now = Ok (lenN (active_rows d now), lenN (expired_rows d now))
+  /\ lenN (active_rows d now) + lenN (expired_rows d now) = lenN d
+  /\ NoDup (map r_addr (active_rows d now))
+  /\ NoDup (map r_addr (expired_rows d now))
+  /\ (clock h <= now -> forall c x, holds log c x now ->
+        exists r, In r (active_rows d now) /\ r_addr r = x /\ r_client r = c).
+Print Assumptions C20_gauges_reachable.
+
+(* two different held leases are two different active rows *)
+Theorem C20_gauge_counts_each_holder :
+  forall h d log now a b x y,
+  wf_history h = true -> run h = Some (d, log) -> clock h <= now ->
+  holds log a x now -> holds log b y now -> (a <> b \/ x <> y) ->
+  2 <= lenN (active_rows d now).
+Proof. exact gauge_counts_each_holder. Qed.
+Check C20_gauge_counts_each_holder :
+  forall h d log now a b x y,
+  wf_history h = true -> run h = Some (d, log) -> clock h <= now ->
+  holds log a x now -> holds log b y now -> (a <> b \/ x <> y) ->
+  2 <= lenN (active_rows d now).
+Print Assumptions C20_gauge_counts_each_holder.
+
+Definition ex20_o (c ip : N) : op := {| o_client := [c]; o_req := None; o_pool := [10; 11]; o_min := 300; o_max := 86400 |}.
+Definition ex20_h : list event :=
+  [ EAlloc (ex20_o 7 10) 1000 1000 (Granted 10 300 NewAddress);
+    EAlloc (ex20_o 8 11) 1001 1001 (Granted 11 300 NewAddress); ETick 99 ].
+Example ex_gauges_reachable :
+  wf_history ex20_h = true /\ clock ex20_h = 1100 /\
+  exists d log, run ex20_h = Some (d, log) /\ holds log [7] 10 1100 /\ holds log [8] 11 1100 /\
+    metrics (map r_expiry d) 1100 = Ok (2, 0) /\ metrics (map r_expiry d) 1300 = Ok (1, 1) /\
+    metrics (map r_expiry d) 1401 = Ok (0, 2).
+Proof.
+  split. reflexivity. split. reflexivity.
+  eexists. eexists. split. vm_compute. reflexivity.
+  split. eexists. split; vm_compute; reflexivity.
+  split. eexists. split; vm_compute; reflexivity.
+  repeat split; reflexivity.
+Qed.
